@@ -26,9 +26,9 @@ M63 = 1 << 63
 
 
 def lattice():
-    ints = [0, 1, -1, 2, 3, -3, 5, 10, 1 << 53, (1 << 53) + 1, -((1 << 53) + 1), M63 - 1, M63 - 2, M63 - 3, -M63, -M63 + 1, -M63 + 2,
-            M63 - 512, M63 - 513, 1 << 62, -(1 << 62)]
-    floats = [0.0, -0.0, 0.5, 1.0, -1.0, 1.5, 2.5, -2.5, 3.0, 0.1, 2.0 ** 53, 2.0 ** 53 + 2, -2.0 ** 53, 2.0 ** 63, -2.0 ** 63, 2.0 ** 63 + 2048,
+    ints = [0, 1, -1, 2, -2, 3, -3, 5, 10, (1 << 53) - 1, 1 << 53, (1 << 53) + 1, (1 << 53) + 2, -((1 << 53) + 1), -(1 << 53), -(1 << 53) + 1,
+            M63 - 1, M63 - 2, M63 - 3, -M63, -M63 + 1, -M63 + 2, -M63 + 3, M63 - 512, M63 - 513, 1 << 62, -(1 << 62)]
+    floats = [0.0, -0.0, 0.5, 1.0, -1.0, 1.5, 2.5, -2.5, 3.0, 0.1, 2.0 ** 53 - 1, 2.0 ** 53, 2.0 ** 53 + 2, 2.0 ** 53 + 4, -2.0 ** 53, -(2.0 ** 53) - 2, -(2.0 ** 53) + 1, 2.0 ** 63, -2.0 ** 63, 2.0 ** 63 + 2048,
               -(2.0 ** 63 + 2048), 2.0 ** 63 - 1024, float("inf"), float("-inf"), float("nan"), 1e308, 5e-324, 2.0 ** 64]
     return [N.I(n) for n in ints] + [N.F(x) for x in floats]
 
@@ -64,19 +64,112 @@ def parse_out(line):
     return parts[0], " ".join(parts[1:])
 
 
+# numeric strings (and non-numbers) as control values -----------------------------------------------
+STRS = {"1": 1, "3": 3, " 2 ": 2, "0x10": 16, "-1": -1, "10": 10, "1.5": 1.5, "1e1": 10.0, "0.5": 0.5}
+BAD = ["abc", "", "1x"]
+
+
+def sval(t):
+    return "S" + (t.encode().hex() or "-")
+
+
+def check_strings(ck, gvh, oracle):
+    nums = ["I1", "I3", "I10", "I-1", "F3fe0000000000000", "F4004000000000000"]
+    ops = [("s", t) for t in STRS] + [("n", v) for v in nums]
+    cases = []
+    for a in ops:
+        for b in ops:
+            for c in ops:
+                if "s" in (a[0], b[0], c[0]):
+                    cases.append((a, b, c))
+    bad = [("b", t) for t in BAD] + [("b", None)]
+    for x in bad:
+        for pos in range(3):
+            tr = [("n", "I1"), ("n", "I3"), ("n", "I1")]
+            tr[pos] = x
+            cases.append(tuple(tr))
+
+    def go_tok(o):
+        if o[0] == "n":
+            return o[1]
+        if o[1] is None:
+            return "N"
+        return sval(o[1])
+
+    def num_of(o, as_float):
+        """the number the operand denotes, as golua sees it (as_float False) or converted to float"""
+        if o[0] == "n":
+            v = o[1]
+            if as_float and N.is_int(v):
+                return N.F(float(N.val_int(v)))
+            return v
+        x = STRS[o[1]]
+        if isinstance(x, int) and not as_float:
+            return N.I(x)
+        return N.F(float(x))
+    glines, alines, blines, metas = [], [], [], []
+    for i, (a, b, c) in enumerate(cases):
+        glines.append("q%d %s %s %s %d plain" % (i, go_tok(a), go_tok(b), go_tok(c), CAP))
+        if "b" in (a[0], b[0], c[0]):
+            alines.append("q%d I1 I1 I1 %d plain" % (i, CAP))
+            blines.append("q%d I1 I1 I1 %d plain" % (i, CAP))
+            continue
+        # manual: integer loop only if start and step ARE integers (not strings)
+        manual_int = a[0] == "n" and c[0] == "n" and N.is_int(a[1]) and N.is_int(c[1])
+        alines.append("q%d %s %s %s %d plain" % (i, num_of(a, False), num_of(b, False), num_of(c, False), CAP))
+        blines.append("q%d %s %s %s %d plain" % (i, num_of(a, not manual_int), num_of(b, False), num_of(c, not manual_int), CAP))
+    _, impl, _ = vlib.run_lines(gvh, ["for"], glines, timeout=600)
+    _, ma, _ = vlib.run_lines(oracle, ["for"], alines, timeout=600)
+    _, mb, _ = vlib.run_lines(oracle, ["for"], blines, timeout=600)
+    if len(impl) != len(cases) or len(ma) != 2 * len(cases) or len(mb) != 2 * len(cases):
+        ck.violation("for/strings: harness or oracle crashed", {"kind": "crash"}, no_input=True)
+        return
+    nbad = 0
+    for i, (a, b, c) in enumerate(cases):
+        go = parse_out(impl[i])[1]
+        ck.case("strfor " + glines[i].split(" ", 1)[1], True)
+        if "b" in (a[0], b[0], c[0]):
+            ck.count("strfor:non-number")
+            want = "Eforinit" if a[0] == "b" else "Eforlimit" if b[0] == "b" else "Eforstep"
+            if not go.startswith(want):
+                nbad += 1
+                ck.violation("for with a non-number %s: implementation gives [%s], expected error %s" % (glines[i], go, want),
+                             {"kind": "Go!=S", "engine": "num", "mode": "for", "line": glines[i].split(" ", 1)[1], "impl": go, "theorems": ["C16_non_number_error"]})
+            continue
+        ck.count("strfor:numeric-string")
+        im = parse_out(ma[2 * i])[1][2:]
+        s_ = parse_out(mb[2 * i + 1])[1][2:]
+        if go != s_:
+            denotes_int = lambda o: (o[0] == "n" and N.is_int(o[1])) or (o[0] == "s" and isinstance(STRS[o[1]], int))
+            k = None
+            if go == im and (a[0] == "s" or c[0] == "s") and denotes_int(a) and denotes_int(c):
+                k = ck.known_match(lambda k: k["id"] == "C16-string-start-step-integer-loop")
+            if k is not None:
+                ck.known_finding(k)
+            else:
+                nbad += 1
+                if nbad <= 3:
+                    ck.violation("for %s: implementation gives [%s], the manual's definition [%s]" % (glines[i].split(" ", 1)[1], go, s_),
+                                 {"kind": "Go!=S", "engine": "num", "mode": "for", "line": glines[i].split(" ", 1)[1], "impl": go, "model_IM": im, "model_S": s_,
+                                  "theorems": ["C16_string_operand_partial"]})
+    ck.cov["for_string_cases"] = len(cases)
+    ck.cov["for_string_Go!=S"] = nbad
+
+
 def run(tier, seed):
     ck = vlib.Check("C16", tier, seed, level="proof")
-    ok_obl = ck.obligations(PROP, clean=False)
     # VERIF_NUM_OVERLAY / VERIF_NUM_TAG: mutation experiments only (go build -overlay, separate binary name)
     gvh, err = ck.build_gvh(pkg="./cmd/gvh-num", name="gvh_num" + os.environ.get("VERIF_NUM_TAG", ""),
                             overlay=os.environ.get("VERIF_NUM_OVERLAY"))
     if gvh is None:
         ck.violation("harness does not build against /repo", {"kind": "build", "stderr": err[-3000:]}, no_input=True)
         return ck.finish("n/a", TRUSTED, [])
-    oracle = ck.build_oracle("num")
+    oracle = N.cached_oracle(ck)
     if oracle is None:
         ck.violation("oracle (extracted model) does not build", {"kind": "build"}, no_input=True)
         return ck.finish("n/a", TRUSTED, [])
+    obl = N.Obligations(ck, PROP)
+    obl.start()
     cases = []
     for f in N.read_corpus("C16", "for.txt"):
         cases.append((f[0], f[1], f[2] if f[2] != "-" else None, f[3] if len(f) > 3 else "plain"))
@@ -92,9 +185,9 @@ def run(tier, seed):
         a, b, c, _ = cases[i]
         if c is None:
             continue
-        if i % 3 == 0 or tier != "quick":
+        if i % 5 == 0 or tier != "quick":
             cases.append((a, b, c, "assign"))
-        if i % 7 == 0 or tier != "quick":
+        if i % 11 == 0 or tier != "quick":
             cases.append((a, b, c, "lit"))
     nrand = 5000 if tier == "quick" else 300000
     for _ in range(nrand):
@@ -158,6 +251,9 @@ def run(tier, seed):
                      {"kind": "Go!=IM", "correspondence": "Go≈IM/num for", "line": im_first[0], "impl": im_first[1], "model": im_first[2], "differences": n_im,
                       "theorems_no_longer_about_this_code": ["C16_int_loop_sequence", "C16_int_loop_terminates_within_count", "C16_int_loop_never_wraps"]},
                      no_input=True)
+    check_strings(ck, gvh, oracle)
+    obl.join()
+    ok_obl = obl.ok
     if not ok_obl:
         ck.violation("proof obligations of C16 no longer check: " + str(ck.cov.get("obligation_failure", ""))[:300],
                      {"kind": "proof", "theorem_file": PROP, "detail": ck.cov.get("obligation_failure")}, no_input=True)
@@ -168,18 +264,18 @@ def run(tier, seed):
     return ck.finish(
         rule="every (start, limit, step) triple (and every (start, limit) pair with the default step) over a lattice of %d numbers (ints around 0, ±2^53+1, "
              "min/maxinteger and neighbours, 2^63-512/513; floats ±0, fractions, ±2^53, ±2^63 and neighbours, 2^64, ±inf, NaN, max, denormal) run as a real Lua "
-             "for loop capped at %d iterations, recording each value with its type; a third of the triples again with a body that assigns to the loop variable, "
-             "a seventh with the operands as literals; + random triples; non-trivial = at least one iteration or an error; distinct by (start, limit, step, mode)" % (len(LAT), CAP),
+             "for loop capped at %d iterations, recording each value with its type; a fifth of the triples again with a body that assigns to the loop variable, "
+             "an eleventh with the operands as literals; + random triples; non-trivial = at least one iteration or an error; distinct by (start, limit, step, mode)" % (len(LAT), CAP),
         trusted_base=TRUSTED,
         assumptions=["iteration capped at %d (the theorems cover the unbounded loop)" % CAP,
-                     "numeric strings as loop operands are not part of the lattice (see notes/C16.md)"])
+                     "numeric strings / non-numbers as loop operands: a separate family of %d triples (check_strings)" % ck.cov.get("for_string_cases", 0)])
 
 
 def replay(path, seed):
     r = json.load(open(path))
     ck = vlib.Check("C16", "quick", seed)
     gvh, _ = ck.build_gvh(pkg="./cmd/gvh-num", name="gvh_num")
-    oracle = ck.build_oracle("num")
+    oracle = N.cached_oracle(ck)
     line = "r " + r["line"]
     _, a, _ = vlib.run_lines(gvh, ["for"], [line])
     _, b, _ = vlib.run_lines(oracle, ["for"], [line])
